@@ -266,6 +266,75 @@ theorem migrations_keep_mint_state :
       (fun m => decide (m.2.1 < releasedVersion m.1) || decide (m.2.2.2.2 = [])) = true := by
   decide
 
+/-! ### bridge credits: consensus-approved, once per prophecy -/
+
+open Sif.Bridge in
+/-- a claim on a prophecy that is already final is rejected and creates nothing -/
+theorem finalized_claim_creates_nothing (s : BState) (c : ClaimIn) (h : isFinal s c.pid = true) :
+    claim s c = (s, false, 0) := by
+  unfold claim; rw [if_pos h]
+
+open Sif.Bridge in
+/-- the judge's predicate holds of every model step -/
+theorem bridgeTxOK_model (s : BState) (c : ClaimIn) :
+    bridgeTxOK (isFinal s c.pid) (claim s c).2.1 (c.success && (claim s c).2.1) c.rowan c.amount (claim s c).2.2 = true := by
+  unfold bridgeTxOK claim
+  cases hf : isFinal s c.pid <;> cases ha : c.accepted <;> cases hs : c.success <;> cases hr : c.rowan <;> simp
+
+open Sif.Bridge in
+theorem claim_inv (s : BState) (c : ClaimIn) (hn : (s.final.map (·.1)).Nodup) (he : s.supply = credited s) :
+    ((claim s c).1.final.map (·.1)).Nodup ∧ (claim s c).1.supply = credited (claim s c).1 := by
+  unfold claim
+  by_cases hf : isFinal s c.pid = true
+  · rw [if_pos hf]; exact ⟨hn, he⟩
+  · rw [if_neg hf]
+    by_cases ha : (!c.accepted) = true
+    · rw [if_pos ha]; exact ⟨hn, he⟩
+    · rw [if_neg ha]
+      by_cases hs : c.success = true
+      · rw [if_pos hs]
+        simp only [List.map_append, List.map_cons, List.map_nil]
+        constructor
+        · rw [List.nodup_append]
+          refine ⟨hn, by simp, ?_⟩
+          intro a ha' b hb
+          simp at hb; subst hb
+          intro e; subst e
+          apply hf
+          unfold isFinal
+          rw [List.any_eq_true]
+          obtain ⟨p, hp, hpe⟩ := List.mem_map.mp ha'
+          exact ⟨p, hp, by simp [hpe]⟩
+        · unfold credited
+          simp only [List.map_append, List.map_cons, List.map_nil, List.sum_append, List.sum_cons, List.sum_nil]
+          unfold credited at he
+          omega
+      · rw [if_neg hs]; exact ⟨hn, he⟩
+
+open Sif.Bridge in
+/-- `bridge_credit_once`: after every history of claim transactions — late claims, duplicates,
+    re-sent identical claims, conflicting claims, whatever the oracle answers — the rowan created by
+    the bridge is the sum of the credits of the finalised prophecies, and no prophecy is in that
+    list twice -/
+theorem bridge_credit_once (cs : List ClaimIn) :
+    ((runClaims BState.empty cs).final.map (·.1)).Nodup ∧
+    (runClaims BState.empty cs).supply = credited (runClaims BState.empty cs) := by
+  have gen : ∀ (cs : List ClaimIn) (s : BState), (s.final.map (·.1)).Nodup → s.supply = credited s →
+      ((runClaims s cs).final.map (·.1)).Nodup ∧ (runClaims s cs).supply = credited (runClaims s cs) := by
+    intro cs
+    induction cs with
+    | nil => intro s hn he; exact ⟨hn, he⟩
+    | cons c cs ih =>
+      intro s hn he
+      obtain ⟨h1, h2⟩ := claim_inv s c hn he
+      exact ih _ h1 h2
+  exact gen cs BState.empty (by simp [BState.empty]) (by simp [BState.empty, credited])
+
+/- non-vacuity: A pending, B reaches consensus (1000 credited), C late, A and B re-send: 1000 once -/
+example : (Sif.Bridge.runClaims Sif.Bridge.BState.empty
+    [⟨7, 1000, true, true, false⟩, ⟨7, 1000, true, true, true⟩, ⟨7, 1000, true, true, true⟩,
+     ⟨7, 1000, true, true, true⟩, ⟨7, 1000, true, true, true⟩]).supply = 1000 := by decide
+
 /-! ## (c) `cap_const`: who can mint, who can write the counter (facts regenerated from the source)
 
   A new caller of `MintCoins`, `SetMintController`, `AddMintAmount` or `DistributeDepthRewards`, a
